@@ -23,8 +23,26 @@ Proof.
   - specialize (IH _ _ y H). lia.
 Qed.
 
-Lemma weight_eq : forall s, weight s = (sumw client_weight (g_clients s) + sumw (fun k => tpc_weight (k_pc k)) (g_tasks s))%nat.
-Proof. reflexivity. Qed.
+Lemma sumw_set_nth_le : forall A (f f' : A -> nat) l i x y, (forall a, (f' a <= f a)%nat) -> nth_error l i = Some x ->
+  (sumw f' (set_nth i y l) + f x <= sumw f l + f' y)%nat.
+Proof.
+  induction l as [|a l IH]; intros i x y Hle H; destruct i; simpl in *; try discriminate.
+  - inversion H; subst. clear IH. induction l as [|b l IHl]; simpl; [lia|]. pose proof (Hle b). lia.
+  - specialize (IH _ _ y Hle H). pose proof (Hle a). lia.
+Qed.
+
+Lemma sumw_le : forall A (f f' : A -> nat) l, (forall a, (f' a <= f a)%nat) -> (sumw f' l <= sumw f l)%nat.
+Proof. induction l as [|a l IH]; intros Hle; simpl; [lia|]. pose proof (Hle a). specialize (IH Hle). lia. Qed.
+
+Lemma sumw_ext : forall A (f g : A -> nat) l, (forall a, f a = g a) -> sumw f l = sumw g l.
+Proof. induction l as [|a l IH]; intros H; simpl; [reflexivity|]. rewrite H, IH by exact H. reflexivity. Qed.
+
+Lemma sumw_nth_le : forall A (f : A -> nat) l i x, nth_error l i = Some x -> (f x <= sumw f l)%nat.
+Proof.
+  induction l as [|a l IH]; intros i x H; destruct i; simpl in *; try discriminate.
+  - inversion H; subst. lia.
+  - specialize (IH _ _ H). lia.
+Qed.
 
 Lemma skipn_nth : forall A (l : list A) i o, nth_error l i = Some o -> skipn i l = o :: skipn (S i) l.
 Proof.
@@ -33,28 +51,98 @@ Proof.
   - apply IH. exact H.
 Qed.
 
-Definition rest_weight (cl : client) : nat := sumw op_weight (skipn (S (c_idx cl)) (c_ops cl)).
+Definition tpcw (k : task) : nat := tpc_weight (k_pc k).
 
-Lemma client_weight_cur : forall cl o, nth_error (c_ops cl) (c_idx cl) = Some o ->
-  client_weight cl = (cur_weight o (c_pc cl) + rest_weight cl)%nat.
-Proof. intros cl o H. unfold client_weight, rest_weight. rewrite (skipn_nth _ _ _ _ H). reflexivity. Qed.
+Lemma rcount_eq : forall s, rcount s = (sumw client_pending (g_clients s) + sumw task_pending (g_tasks s))%nat.
+Proof. reflexivity. Qed.
 
-Lemma client_weight_same : forall cl o p, nth_error (c_ops cl) (c_idx cl) = Some o ->
-  client_weight (mkClient (c_ops cl) (c_idx cl) p) = (cur_weight o p + rest_weight cl)%nat.
-Proof. intros cl o p H. unfold client_weight, rest_weight. cbn [c_ops c_idx c_pc]. rewrite (skipn_nth _ _ _ _ H). reflexivity. Qed.
+Lemma weight_eq : forall s,
+  weight s = (sumw (client_weight (rcount s) (g_tasks s)) (g_clients s) + sumw tpcw (g_tasks s))%nat.
+Proof. reflexivity. Qed.
 
-Lemma cur_weight_start : forall o, cur_weight o CStart = op_weight o.
+Definition rest_weight (R : nat) (cl : client) : nat := sumw (op_weight R) (skipn (S (c_idx cl)) (c_ops cl)).
+Definition rest_pending (cl : client) : nat := sumw op_pending (skipn (S (c_idx cl)) (c_ops cl)).
+
+Lemma client_weight_cur : forall R ts cl o, nth_error (c_ops cl) (c_idx cl) = Some o ->
+  client_weight R ts cl = (cur_weight R ts o (c_pc cl) + rest_weight R cl)%nat.
+Proof. intros R ts cl o H. unfold client_weight, rest_weight. rewrite (skipn_nth _ _ _ _ H). reflexivity. Qed.
+
+Lemma client_weight_same : forall R ts cl o p, nth_error (c_ops cl) (c_idx cl) = Some o ->
+  client_weight R ts (mkClient (c_ops cl) (c_idx cl) p) = (cur_weight R ts o p + rest_weight R cl)%nat.
+Proof.
+  intros R ts cl o p H. unfold client_weight, rest_weight. cbn [c_ops c_idx c_pc].
+  rewrite (skipn_nth _ _ _ _ H). reflexivity.
+Qed.
+
+Lemma cur_weight_start : forall R ts o, cur_weight R ts o CStart = op_weight R o.
 Proof. destruct o; reflexivity. Qed.
 
-Lemma client_weight_next : forall cl, client_weight (ret_next cl) = rest_weight cl.
+Lemma client_weight_next : forall R ts cl, client_weight R ts (ret_next cl) = rest_weight R cl.
 Proof.
-  intros cl. unfold client_weight, ret_next, rest_weight. cbn [c_ops c_idx c_pc].
+  intros R ts cl. unfold client_weight, ret_next, rest_weight. cbn [c_ops c_idx c_pc].
   destruct (skipn (S (c_idx cl)) (c_ops cl)) as [|o r]; [reflexivity|].
   rewrite cur_weight_start. reflexivity.
 Qed.
 
-Lemma cur_weight_pos : forall o p, (1 <= cur_weight o p)%nat.
-Proof. destruct o, p; simpl; lia. Qed.
+Lemma client_pending_cur : forall cl o, nth_error (c_ops cl) (c_idx cl) = Some o ->
+  client_pending cl = (cur_pending o (c_pc cl) + rest_pending cl)%nat.
+Proof. intros cl o H. unfold client_pending, rest_pending. rewrite (skipn_nth _ _ _ _ H). reflexivity. Qed.
+
+Lemma client_pending_same : forall cl o p, nth_error (c_ops cl) (c_idx cl) = Some o ->
+  client_pending (mkClient (c_ops cl) (c_idx cl) p) = (cur_pending o p + rest_pending cl)%nat.
+Proof.
+  intros cl o p H. unfold client_pending, rest_pending. cbn [c_ops c_idx c_pc].
+  rewrite (skipn_nth _ _ _ _ H). reflexivity.
+Qed.
+
+Lemma client_pending_next : forall cl, client_pending (ret_next cl) = rest_pending cl.
+Proof.
+  intros cl. unfold client_pending, ret_next, rest_pending. cbn [c_ops c_idx c_pc].
+  destruct (skipn (S (c_idx cl)) (c_ops cl)) as [|o r]; [reflexivity|]. destruct o; reflexivity.
+Qed.
+
+(* monotonicity in R *)
+Lemma op_weight_mono : forall R R' o, (R' <= R)%nat -> (op_weight R' o <= op_weight R o)%nat.
+Proof. intros R R' o H. destruct o; simpl; lia. Qed.
+
+Lemma rest_weight_mono : forall R R' cl, (R' <= R)%nat -> (rest_weight R' cl <= rest_weight R cl)%nat.
+Proof. intros R R' cl H. unfold rest_weight. apply sumw_le. intros o. apply op_weight_mono. exact H. Qed.
+
+Lemma cur_weight_mono : forall R R' ts o p, (R' <= R)%nat -> (cur_weight R' ts o p <= cur_weight R ts o p)%nat.
+Proof. intros R R' ts o p H. destruct o, p; simpl; lia. Qed.
+
+Lemma client_weight_mono : forall R R' ts cl, (R' <= R)%nat -> (client_weight R' ts cl <= client_weight R ts cl)%nat.
+Proof.
+  intros R R' ts cl H. unfold client_weight. destruct (skipn (c_idx cl) (c_ops cl)) as [|o r]; [lia|].
+  pose proof (cur_weight_mono R R' ts o (c_pc cl) H).
+  assert (sumw (op_weight R') r <= sumw (op_weight R) r)%nat by (apply sumw_le; intros; apply op_weight_mono; exact H).
+  unfold sumw in *. lia.
+Qed.
+
+(* dependence on the task list only through task_done *)
+Lemma client_weight_ext : forall R ts ts' cl, (forall f, task_done ts' f = task_done ts f) ->
+  client_weight R ts' cl = client_weight R ts cl.
+Proof.
+  intros R ts ts' cl H. unfold client_weight. destruct (skipn (c_idx cl) (c_ops cl)) as [|o r]; [reflexivity|].
+  f_equal. destruct o, (c_pc cl); simpl; try reflexivity. rewrite H. reflexivity.
+Qed.
+
+Lemma task_done_app : forall ts k f, k_pc k <> TEnd -> task_done (ts ++ [k]) f = task_done ts f.
+Proof.
+  intros ts k f Hk. unfold task_done. destruct (lt_dec f (length ts)) as [Hlt|Hge].
+  - rewrite nth_error_app1 by exact Hlt. reflexivity.
+  - rewrite nth_error_app2 by lia. replace (nth_error ts f) with (@None task) by (symmetry; apply nth_error_None; lia).
+    destruct (f - length ts)%nat as [|m]; simpl; [destruct (k_pc k); congruence | destruct m; reflexivity].
+Qed.
+
+Lemma nth_error_set_nth_eq : forall A (l : list A) i y, (i < length l)%nat -> nth_error (set_nth i y l) i = Some y.
+Proof. induction l as [|a l IH]; intros i y H; destruct i; simpl in *; try lia; auto. apply IH. lia. Qed.
+
+Lemma nth_error_set_nth_ne : forall A (l : list A) i j y, i <> j -> nth_error (set_nth i y l) j = nth_error l j.
+Proof.
+  induction l as [|a l IH]; intros i j y H; destruct i, j; simpl; try reflexivity; try congruence.
+  apply IH. congruence.
+Qed.
 
 (* ---------------------------------------------------------------- every step decreases weight *)
 Ltac break_match :=
@@ -62,29 +150,102 @@ Ltac break_match :=
   | H : context [match ?x with _ => _ end] |- _ => destruct x eqn:?
   end.
 
+Ltac bools :=
+  repeat match goal with
+         | H : _ && _ = true |- _ => apply andb_true_iff in H; destruct H
+         | H : negb _ = true |- _ => apply negb_true_iff in H
+         | H : _ || _ = false |- _ => apply orb_false_iff in H; destruct H
+         | H : negb _ = false |- _ => apply negb_false_iff in H
+         end.
+
+Lemma weight_client_move : forall s t cl cl' ts' c' h' k',
+  nth_error (g_clients s) t = Some cl ->
+  (forall f, task_done ts' f = task_done (g_tasks s) f) ->
+  (sumw client_pending (set_nth t cl' (g_clients s)) + sumw task_pending ts' <= rcount s)%nat ->
+  (client_weight (sumw client_pending (set_nth t cl' (g_clients s)) + sumw task_pending ts') ts' cl' + sumw tpcw ts'
+   < client_weight (rcount s) (g_tasks s) cl + sumw tpcw (g_tasks s))%nat ->
+  (weight (mkG c' (set_nth t cl' (g_clients s)) ts' h' k') < weight s)%nat.
+Proof.
+  intros s t cl cl' ts' c' h' k' Hn Hext HR Hlt. rewrite !weight_eq. rewrite (rcount_eq (mkG _ _ _ _ _)).
+  simpl g_clients. simpl g_tasks.
+  set (R' := (sumw client_pending (set_nth t cl' (g_clients s)) + sumw task_pending ts')%nat) in *.
+  assert (Hle : forall a, (client_weight R' ts' a <= client_weight (rcount s) (g_tasks s) a)%nat).
+  { intros a. rewrite (client_weight_ext R' _ _ a Hext). apply client_weight_mono. exact HR. }
+  pose proof (sumw_set_nth_le _ _ _ _ _ _ cl' Hle Hn). lia.
+Qed.
+
 Lemma client_step_weight : forall fl mx s t cl s',
   nth_error (g_clients s) t = Some cl -> client_step fl mx s t cl = Some s' -> (weight s' < weight s)%nat.
 Proof.
-  intros fl mx s t cl s' Hn H. unfold client_step in H.
+  intros fl mx s t cl s' Hn H. unfold client_step, upd_lock, busy_entry in H.
   destruct (nth_error (c_ops cl) (c_idx cl)) as [o|] eqn:Eo; [|discriminate].
-  pose proof (client_weight_cur _ _ Eo) as Hc.
-  pose proof (client_weight_next cl) as Hnx.
-  pose proof (fun p => client_weight_same cl o p Eo) as Hs.
-  repeat break_match; try discriminate; inversion H; subst; clear H;
-    rewrite !weight_eq; simpl g_clients; simpl g_tasks;
+  pose proof (sumw_nth_le _ client_pending _ _ _ Hn) as Hpl.
+  rewrite (client_pending_cur _ _ Eo) in Hpl.
+  pose proof (fun R' (H : (R' <= rcount s)%nat) => rest_weight_mono (rcount s) R' cl H) as Hrw.
+  repeat break_match; try discriminate; inversion H; subst; clear H; bools;
+    (eapply weight_client_move; [exact Hn | intros ?; first [reflexivity | apply task_done_app; discriminate] | | ]);
     match goal with
     | |- context [set_nth t ?c (g_clients s)] =>
-        pose proof (sumw_set_nth _ client_weight _ _ _ c Hn) as Hsum
+        pose proof (sumw_set_nth _ client_pending _ _ _ c Hn) as Hp;
+        rewrite (client_pending_cur _ _ Eo) in Hp;
+        rewrite ?client_pending_next, ?(client_pending_same _ _ _ Eo) in Hp
     end;
-    rewrite ?sumw_app; simpl sumw; simpl tpc_weight;
-    rewrite ?Hnx, ?Hs in Hsum; rewrite Hc in Hsum; simpl cur_weight in Hsum; lia.
+    rewrite ?sumw_app; simpl sumw; simpl task_pending; simpl tpcw; simpl tpc_weight;
+    try match goal with Hc : c_pc cl = _ |- _ => rewrite Hc in * end;
+    simpl cur_pending in Hp; simpl cur_pending in Hpl; rewrite (rcount_eq s) in *;
+    try lia.
+  all: rewrite (client_weight_cur _ _ _ _ Eo);
+       rewrite ?client_weight_next, ?(client_weight_same _ _ _ _ _ Eo);
+       try match goal with Hc : c_pc _ = _ |- _ => rewrite Hc end;
+       simpl cur_weight;
+       repeat match goal with Ht : task_done _ _ = _ |- _ => rewrite Ht end.
+  all: match goal with
+       | Hr : forall R' : nat, (R' <= ?R)%nat -> _ |- context [rest_weight (sumw client_pending (set_nth ?i ?c ?cs) + ?T) ?c0] =>
+           let HR := fresh "HR" in
+           assert (HR : (sumw client_pending (set_nth i c cs) + T <= R)%nat) by lia;
+           pose proof (Hr _ HR)
+       end; lia.
+Qed.
+Lemma task_done_set_nth : forall ts i k' f, (i < length ts)%nat ->
+  task_done (set_nth i k' ts) f = if (f =? i)%nat then task_finished k' else task_done ts f.
+Proof.
+  intros ts i k' f Hi. unfold task_done. destruct (f =? i)%nat eqn:E.
+  - apply Nat.eqb_eq in E. subst f. rewrite nth_error_set_nth_eq by exact Hi. reflexivity.
+  - apply Nat.eqb_neq in E. rewrite nth_error_set_nth_ne by congruence. reflexivity.
 Qed.
 
-Lemma task_step_weight : forall fl mx c k c' k', task_step fl mx c k = Some (c', k') ->
-  (tpc_weight (k_pc k') < tpc_weight (k_pc k))%nat.
+Lemma cur_weight_finish : forall R R' ts i k k' o p,
+  (R' + 1 = R)%nat -> nth_error ts i = Some k -> task_finished k = false -> task_finished k' = true ->
+  (cur_weight R' (set_nth i k' ts) o p <= cur_weight R ts o p)%nat.
 Proof.
-  intros fl mx c k c' k' H. unfold task_step in H.
-  repeat break_match; try discriminate; inversion H; subst; simpl; lia.
+  intros R R' ts i k k' o p HR Hn Hk Hk'.
+  assert (Hi : (i < length ts)%nat) by (apply nth_error_Some; congruence).
+  destruct o, p; simpl; try lia.
+  rewrite (task_done_set_nth _ _ _ _ Hi). destruct (fut =? i)%nat eqn:E.
+  - apply Nat.eqb_eq in E. subst fut. rewrite Hk'.
+    assert (Hd : task_done ts i = false) by (unfold task_done; rewrite Hn; exact Hk).
+    rewrite Hd. lia.
+  - destruct (task_done ts fut); lia.
+Qed.
+
+Lemma client_weight_finish : forall R R' ts i k k' cl,
+  (R' + 1 = R)%nat -> nth_error ts i = Some k -> task_finished k = false -> task_finished k' = true ->
+  (client_weight R' (set_nth i k' ts) cl <= client_weight R ts cl)%nat.
+Proof.
+  intros R R' ts i k k' cl HR Hn Hk Hk'. unfold client_weight.
+  destruct (skipn (c_idx cl) (c_ops cl)) as [|o r]; [lia|].
+  pose proof (cur_weight_finish R R' ts i k k' o (c_pc cl) HR Hn Hk Hk').
+  assert (sumw (op_weight R') r <= sumw (op_weight R) r)%nat by (apply sumw_le; intros; apply op_weight_mono; lia).
+  unfold sumw in *. lia.
+Qed.
+
+Lemma task_step_pcs : forall fl mx c k c' k', task_step fl mx c k = Some (c', k') ->
+  (tpc_weight (k_pc k') < tpc_weight (k_pc k))%nat /\ task_finished k = false /\
+  (task_finished k' = true <-> k_pc k = T4).
+Proof.
+  intros fl mx c k c' k' H. unfold task_step in H. unfold task_finished.
+  repeat break_match; try discriminate; inversion H; subst; simpl;
+    (split; [lia | split; [reflexivity | split; intros; congruence]]).
 Qed.
 
 Theorem step_decreases_weight : forall fl mx s t s', step fl mx s t = Some s' -> (weight s' < weight s)%nat.
@@ -95,9 +256,38 @@ Proof.
     eapply client_step_weight; eauto.
   - destruct (nth_error (g_tasks s) (t - length (g_clients s))) as [k|] eqn:En; [|discriminate].
     destruct (task_step fl mx (g_core s) k) as [[c' k']|] eqn:Et; [|discriminate].
-    inversion H; subst; clear H. rewrite !weight_eq. simpl g_clients. simpl g_tasks.
-    pose proof (task_step_weight _ _ _ _ _ _ Et) as Hw.
-    pose proof (sumw_set_nth _ (fun k => tpc_weight (k_pc k)) _ _ _ k' En) as Hsum. simpl in Hsum. lia.
+    inversion H; subst; clear H. rewrite !weight_eq, !rcount_eq. simpl g_clients. simpl g_tasks.
+    destruct (task_step_pcs _ _ _ _ _ _ Et) as (Hw & Hk & Hfin).
+    assert (Hi : (t - length (g_clients s) < length (g_tasks s))%nat) by (apply nth_error_Some; congruence).
+    pose proof (sumw_set_nth _ tpcw _ _ _ k' En) as Hsum. change (tpcw k) with (tpc_weight (k_pc k)) in Hsum. change (tpcw k') with (tpc_weight (k_pc k')) in Hsum.
+    pose proof (sumw_set_nth _ task_pending _ _ _ k' En) as Hpend.
+    destruct (task_finished k') eqn:Ek'.
+    + (* the task completes: R drops by one *)
+      assert (Hp1 : task_pending k = 1%nat) by (unfold task_pending; unfold task_finished in Hk; destruct (k_pc k); congruence).
+      assert (Hp0 : task_pending k' = 0%nat) by (unfold task_pending; unfold task_finished in Ek'; destruct (k_pc k'); congruence).
+      rewrite Hp1, Hp0 in Hpend.
+      set (R := (sumw client_pending (g_clients s) + sumw task_pending (g_tasks s))%nat) in *.
+      set (R' := (sumw client_pending (g_clients s) + sumw task_pending (set_nth (t - length (g_clients s)) k' (g_tasks s)))%nat) in *.
+      assert (HR : (R' + 1 = R)%nat) by (subst R R'; lia).
+      assert (Hle : (sumw (client_weight R' (set_nth (t - length (g_clients s)) k' (g_tasks s))) (g_clients s)
+                     <= sumw (client_weight R (g_tasks s)) (g_clients s))%nat).
+      { apply sumw_le. intros a. eapply client_weight_finish; eauto. }
+      lia.
+    + (* any other task step: R and task_done are unchanged *)
+      assert (Hp1 : task_pending k = 1%nat) by (unfold task_pending; unfold task_finished in Hk; destruct (k_pc k); congruence).
+      assert (Hp1' : task_pending k' = 1%nat) by (unfold task_pending; unfold task_finished in Ek'; destruct (k_pc k'); congruence).
+      rewrite Hp1, Hp1' in Hpend.
+      assert (HR : (sumw client_pending (g_clients s) + sumw task_pending (set_nth (t - length (g_clients s)) k' (g_tasks s))
+                    = sumw client_pending (g_clients s) + sumw task_pending (g_tasks s))%nat) by lia.
+      rewrite HR.
+      assert (Hext : forall f, task_done (set_nth (t - length (g_clients s)) k' (g_tasks s)) f = task_done (g_tasks s) f).
+      { intros f. rewrite (task_done_set_nth _ _ _ _ Hi). destruct (f =? t - length (g_clients s))%nat eqn:E; [|reflexivity].
+        apply Nat.eqb_eq in E. subst f. unfold task_done. rewrite En. rewrite Ek'. symmetry. exact Hk. }
+      assert (Heq : sumw (client_weight (sumw client_pending (g_clients s) + sumw task_pending (g_tasks s))
+                            (set_nth (t - length (g_clients s)) k' (g_tasks s))) (g_clients s)
+                    = sumw (client_weight (sumw client_pending (g_clients s) + sumw task_pending (g_tasks s)) (g_tasks s)) (g_clients s)).
+      { apply sumw_ext. intros a. apply client_weight_ext. exact Hext. }
+      rewrite Heq. lia.
 Qed.
 
 (* ---------------------------------------------------------------- no deadlock *)
@@ -107,9 +297,12 @@ Definition pc_ok (n : nat) (cl : client) : Prop :=
   | Some o =>
       match o, c_pc cl with
       | OGet _, CWait f _ => (f < n)%nat
+      | OGet _, (CRetry _ | CAgain) => False
       | OGet _, _ => True
       | OUpd _ _, CStart => True
+      | OUpd _ _, CAgain => True
       | OUpd _ _, CWait f _ => (f < n)%nat
+      | OUpd _ _, CRetry f => (f < n)%nat
       | OUnl _, CStart => True
       | _, _ => False
       end
@@ -193,13 +386,18 @@ Qed.
 Lemma ufm_entries : forall n fl mx f mu c c' r, entries_ok n c -> ufm fl mx f mu c = (c', r) -> entries_ok n c'.
 Proof.
   intros n fl mx f mu c c' r Hc H. unfold ufm in H.
-  destruct (mu >? mx); [inversion H; subst; exact Hc|].
-  destruct (recover_loop mx mu (heap c) c []) as [[[c1 rest] wr] ke] eqn:Er.
-  pose proof (recover_loop_entries _ _ _ _ _ _ _ _ _ _ Hc Er) as H1.
+  destruct ((mu >? mx) && negb (fl_oversize_uncached fl)); [inversion H; subst; exact Hc|].
+  assert (H1 : forall c1 rest wr ke,
+             (if mu >? mx then (c, heap c, [], false) else recover_loop mx mu (heap c) c []) = (c1, rest, wr, ke) ->
+             entries_ok n c1).
+  { intros c1 rest wr ke E. destruct (mu >? mx); [inversion E; subst; exact Hc|].
+    eapply recover_loop_entries; eauto. }
+  destruct (if mu >? mx then (c, heap c, [], false) else recover_loop mx mu (heap c) c []) as [[[c1 rest] wr] ke] eqn:Er.
+  specialize (H1 _ _ _ _ eq_refl).
   destruct ke; [inversion H; subst; exact H1|].
   destruct (lookup f (futs c1)) as [e|] eqn:El; [|inversion H; subst; exact H1].
   pose proof (entries_ok_lookup _ _ _ _ H1 El) as He.
-  destruct (mem c1 + mu <=? mx); inversion H; subst; unfold entries_ok; simpl.
+  destruct (negb (mu >? mx) && (mem c1 + mu <=? mx)); inversion H; subst; unfold entries_ok; simpl.
   - apply Forall_aset; [exact H1 | simpl; exact He].
   - apply Forall_adel. exact H1.
 Qed.
@@ -210,14 +408,17 @@ Proof. intros ts k f d H. apply Forall_app. split; [exact H|]. apply Forall_cons
 Lemma client_step_J : forall fl mx s t cl s',
   J s -> nth_error (g_clients s) t = Some cl -> client_step fl mx s t cl = Some s' -> J s'.
 Proof.
-  intros fl mx s t cl s' (Hc & Ht & He) Hn H. unfold client_step in H.
+  intros fl mx s t cl s' (Hc & Ht & He) Hn H. unfold client_step, upd_lock, busy_entry in H.
   destruct (nth_error (c_ops cl) (c_idx cl)) as [o|] eqn:Eo; [|discriminate].
   assert (Hsame : forall n p,
             match o, p with
             | OGet _, CWait f _ => (f < n)%nat
+            | OGet _, (CRetry _ | CAgain) => False
             | OGet _, _ => True
             | OUpd _ _, CStart => True
+            | OUpd _ _, CAgain => True
             | OUpd _ _, CWait f _ => (f < n)%nat
+            | OUpd _ _, CRetry f => (f < n)%nat
             | OUnl _, CStart => True
             | _, _ => False
             end -> pc_ok n (mkClient (c_ops cl) (c_idx cl) p)).
@@ -317,17 +518,13 @@ Proof.
     rewrite forallb_forall in Hfin. pose proof (Hfin k (nth_error_In _ _ Ek)) as Hf2.
     unfold task_finished in Hf2. unfold res_ok in Hk. destruct (k_pc k) eqn:Epc; try discriminate.
     destruct (k_res k) as [r|] eqn:Er; [|congruence]. exists k, r. auto. }
-  destruct o as [f|f d|f]; destruct (c_pc cl) as [| |claim|fut ap] eqn:Epc; try contradiction.
-  - destruct (lookup f (disk (g_core s))); discriminate.
-  - destruct (lookup f (disk (g_core s))); [destruct (zlen c >? mx)|]; discriminate.
-  - destruct (lookup f (futs (g_core s))); discriminate.
-  - destruct (Hw _ Hp) as (k & r & Ek & Epk & Erk). rewrite Ek.
-    destruct k as [kk kf kd kp kr]. simpl in *. subst. destruct r; discriminate.
-  - destruct (zlen d >? mx); [discriminate|].
-    destruct (lookup f (futs (g_core s))) as [e|]; [destruct (e_w e)|]; simpl; discriminate.
-  - destruct (Hw _ Hp) as (k & r & Ek & Epk & Erk). rewrite Ek.
-    destruct k as [kk kf kd kp kr]. simpl in *. subst. destruct r; discriminate.
-  - discriminate.
+  destruct o as [f|f d|f]; destruct (c_pc cl) as [| |claim|fut ap|fut|] eqn:Epc; try contradiction;
+    unfold upd_lock, busy_entry.
+  all: try (destruct (Hw _ Hp) as (k & r & Ek & Epk & Erk); destruct k as [kk kf kd kp kr]; simpl in Epk, Erk; subst kp kr;
+            assert (Hd : task_done (g_tasks s) fut = true) by (unfold task_done; rewrite Ek; reflexivity);
+            try rewrite Ek; try rewrite Hd).
+  all: repeat (match goal with |- context [match ?x with _ => _ end] => destruct x eqn:? end; simpl); try discriminate.
+  all: rewrite andb_false_r in *; discriminate.
 Qed.
 
 Theorem no_deadlock : forall fl cf s,
@@ -366,4 +563,45 @@ Proof.
   intros fl cf s Hr. split.
   - intros t s'. apply step_decreases_weight.
   - apply no_deadlock. exact Hr.
+Qed.
+
+(* ---------------------------------------------------------------- with the busy guard the class K is empty
+   (no client ever unloads an entry whose task has not yet run its locked block), for ANY configuration and schedule *)
+Lemma done_not_inflight : forall ts e, task_done ts (e_fut e) = true -> inflight ts e = false.
+Proof.
+  intros ts e H. unfold task_done in H. unfold inflight.
+  destruct (nth_error ts (e_fut e)) as [k|]; [|reflexivity]. destruct (k_pc k); try discriminate; reflexivity.
+Qed.
+
+Lemma client_step_k : forall fl mx s t cl s',
+  fl_busy_guard fl = true -> client_step fl mx s t cl = Some s' -> g_k s = 0 -> g_k s' = 0.
+Proof.
+  intros fl mx s t cl s' Hg H Hk. unfold client_step, upd_lock, busy_entry in H. rewrite Hg in H.
+  repeat break_match; try discriminate; inversion H; subst; clear H; simpl; try exact Hk.
+  all: exfalso;
+       try (repeat match goal with
+              | Hw : e_w ?e = _ |- _ => rewrite Hw in *; clear Hw
+              end; simpl in *;
+       match goal with
+       | Hb : negb (task_done ?ts (e_fut ?e)) = false, Hi : inflight ?ts ?e = true |- _ =>
+           apply negb_false_iff in Hb; rewrite (done_not_inflight _ _ Hb) in Hi; discriminate
+       | Hb : _ && negb (task_done ?ts (e_fut ?e)) = false, Hi : inflight ?ts ?e = true |- _ =>
+           simpl in Hb; apply negb_false_iff in Hb; rewrite (done_not_inflight _ _ Hb) in Hi; discriminate
+       end).
+  all: match goal with
+       | Hn : negb (e_w ?e) = true, Hb : true && ((false || negb (e_w ?e)) && negb (task_done ?ts (e_fut ?e))) = false,
+         Hi : inflight ?ts ?e = true |- _ =>
+           rewrite Hn in Hb; simpl in Hb; apply negb_false_iff in Hb;
+           rewrite (done_not_inflight _ _ Hb) in Hi; discriminate
+       end.
+Qed.
+
+Theorem guard_excludes_K : forall fl cf s, fl_busy_guard fl = true -> reach fl cf s -> g_k s = 0.
+Proof.
+  intros fl cf s Hg Hr. induction Hr as [|s t s' Hr IH Hst]; [reflexivity|].
+  unfold step in Hst. destruct (t <? length (g_clients s))%nat.
+  - destruct (nth_error (g_clients s) t) as [cl|]; [|discriminate]. eapply client_step_k; eauto.
+  - destruct (nth_error (g_tasks s) (t - length (g_clients s))) as [k|]; [|discriminate].
+    destruct (task_step fl (cfg_max cf) (g_core s) k) as [[c' k']|]; [|discriminate].
+    inversion Hst; subst. simpl. exact IH.
 Qed.
